@@ -96,6 +96,12 @@ SymsT  == {"-", "=", "#", ":"}
 SymsA  == {".", "-", "=", "#", "$", ":"}
 RingsQ == {RingF(1, "d")}
 RingsT == {RingF(1, "d"), RingF(10, "%")}
+(* one atom, one descriptor, no symbols: longer strings with sibling and nested branches (branch anchors) *)
+AtomsC == {Bare("C", "C", FALSE)}
+AtomsCG1 == {Brk("[#A]", "A", 0, 0, <<>>)}
+DescD == {Dsc("$", "")}
+NoSyms == {}
+NoRingsF == {}
 NoSlash == {}
 Slashes == {Sl("/"), Sl("\\")}
 =============================================================================
